@@ -815,3 +815,42 @@ def coq_eval_listings(cases, workdir):
         lst = eval(body.replace(';', ','))
         res[int(m.group(1))] = set(norm(bytes(x)) for x in lst)
     return [res.get(i) for i in range(len(cases))]
+
+
+def coq_target(tg):
+    kind = {'b': 'TBuild', 's': 'TService', 'a': 'TAggregate'}[tg['kind']]
+    files = '; '.join('{| fr_paths := [%s]; fr_exts := %s |}' % ('; '.join(coq_bytes(p) for p in ps), coq_exts(e))
+                      for e, ps in tg['outputs'])
+    res = '{| r_files := [%s]; r_cmds := [] |}' % files
+    return ('{| rt_id := {| t_project := %s; t_name := %s |}; rt_dir := %s; rt_deps := []; rt_kind := %s; rt_script := []; '
+            'rt_input := %s; rt_output := %s |}') % (
+        'Some ' + coq_bytes(tg['project']) if tg['project'] else 'None', coq_bytes(tg['name']), coq_bytes(tg['dir']), kind,
+        res if tg['kind'] == 's' else 'resources_empty', res if tg['kind'] == 'b' else 'resources_empty')
+
+
+def coq_eval_clean(cases, workdir):
+    """cases: [(tree, target, op)] with op in outputs/state -> [(ok, {path: survives})] computed by vm_compute inside Coq"""
+    import re
+    src = ['From Zinoma.Model Require Import Bytes Ext Cfg Names FsTree.']
+    locs = []
+    for i, (tree, tg, op) in enumerate(cases):
+        qs = list(tree.keys())
+        locs.append(qs)
+        src.append('Definition t%d : node := %s.' % (i, coq_tree(tree)))
+        src.append('Definition g%d : rtarget := %s.' % (i, coq_target(tg)))
+        fn = 'clean_outputs' if op == 'outputs' else 'delete_state'
+        src.append('Eval vm_compute in (%d%%nat, snd (%s t%d g%d), map (fun q => match kind_at (fst (%s t%d g%d)) q with Some _ => true '
+                   '| None => false end) [%s]).' % (i, fn, i, i, fn, i, i,
+                                                     '; '.join('[' + '; '.join(coq_bytes(c) for c in p.split(b'/') if c) + ']' for p in qs)))
+    f = os.path.join(workdir, 'CleanCases.v')
+    with open(f, 'w') as fh:
+        fh.write('\n'.join(src) + '\n')
+    rc, out, err = vf.sh(['coqc', '-noglob', '-Q', vf.COQ, 'Zinoma', f], timeout=900, cwd=workdir)
+    if rc != 0:
+        raise RuntimeError('coqc on the cross-check file failed: ' + (out + err)[-1500:])
+    res = {}
+    for m in re.finditer(r'=\s*\((\d+)%nat,\s*(true|false),\s*(\[.*?\])\)\s*:\s*nat \* bool \* list bool', out, re.S):
+        bits = [x.strip() == 'true' for x in m.group(3).strip('[] \n').replace('\n', ' ').split(';') if x.strip()]
+        i = int(m.group(1))
+        res[i] = (m.group(2) == 'true', dict(zip(locs[i], bits)))
+    return [res.get(i) for i in range(len(cases))]
